@@ -11,12 +11,20 @@ T: the driver harness/c48drv.cpp declares flags of every type (callbacks that lo
    (their callbacks may refuse a value or end the process: left open by the specification; an unparsable literal must be
    refused with nothing changed, a stored value must read back exactly).  Config_trace.tla validates every trace.
    The literal -> value ground truth (pv) comes from the generator below, as DESIGN.md says.
+
+Mutation evidence (tools/mutbuild.sh lib, quick tier):
+  caught  parse_long accepts trailing garbage ("1.5" stored as 1 into int items)   -> trace line res ok for an unparsable literal
+  caught  set_string_value does not run the callback                             -> callbacks missing (command line batch, set_*)
+  caught  set_string_value does not unset is_default                             -> is_default still true after an accepted set
 """
 import json, os, re
 import vlib
 import lib_common as L
 
 LEVEL = "model_checking"
+META = {"text": "spec/lib/Config.tla gives, for a registry of items (name, aliases, type, default, callback visibility), the outcomes allowed for Set by string / typed Set / SetDefault / Get / IsDefault: unknown key => error and nothing changes; unparsable literal => error, nothing changes, no callback; else the parsed value is stored, is_default falls, the callback runs once with it. ConfigMC model-checks these properties on a small registry. The driver lists every item registered in the running library (147 of SimGrid + 7 of its own with logging/validating callbacks and aliases), applies generated valid and invalid literals through set_as_string, set_parse (--cfg syntax), the real command line, set_value<T>, set_default<T> and the sg_cfg_* C API, logs outcome, callbacks, value and is_default after each operation, and Config_trace.tla validates every trace.",
+        "note": "Trusted: TLC; the literal -> value ground truth is the generator's (decimal ints, decimal floats, the eight boolean words); callbacks of SimGrid's own items are invisible: for them refusal or process end after a successful parse is left open, parse rejection and exact read-back are decided. Octal/hex integers, hex floats, inf/nan not generated.",
+        "technique": "TLC model checking of Config (M) + TLC trace validation of logged configuration operations (T)"}
 DRIVERS = {"c48drv": L.DRIVERS["c48drv"]}
 
 OWN_FLAGS = [   # the flags declared by c48drv.cpp, in declaration order
